@@ -26,8 +26,8 @@ def classify(b, has_nested):
         return None
     rep = b.get('repair')
     ids = b['entry'].split('|')
-    if has_nested and any(x.split('_')[0] in ('SE', 'RI', 'A3SS', 'A5SS', 'MXE') for x in ids):
-        return 'KF-NESTED'
+    if has_nested and (any(x.split('_')[0] in ('SE', 'RI', 'A3SS', 'A5SS', 'MXE') for x in ids) or b.get('names_nested_record')):
+        return 'KF-NESTED'      # entry names the AS record, or a record nested in its donor segment (possibly without the AS record)
     if ids[0].startswith('FUSION-') and any(x.startswith('2-') for x in ids) \
             and (b.get('fusion_donor_fs') or any(_frameshift_id(x[2:]) for x in ids if x.startswith('1-'))):
         return 'KF-FUSION-ACCEPTOR-VAR'     # entry names an acceptor-side record and the donor part carries a frameshifting record
